@@ -36,12 +36,17 @@ type c12Scen struct {
 	Res     string `json:"res,omitempty"` // if set, the fault hits the first request for this resource instead of request number At
 	// CloseInCB: the k-th user callback invocation (1-based) calls Close itself, on the client's own goroutine
 	CloseInCB int `json:"close_in_cb,omitempty"`
+	// SlowTracks: the user's OnTracks callback takes a few steps of its own before it returns (Close may arrive meanwhile)
+	SlowTracks bool `json:"slow_tracks,omitempty"`
 }
 
 func (s c12Scen) name() string {
 	cb := ""
 	if s.CloseInCB != 0 {
 		cb = fmt.Sprintf(" close-in-callback=%d", s.CloseInCB)
+	}
+	if s.SlowTracks {
+		cb += " slow-ontracks"
 	}
 	return fmt.Sprintf("C12 %s fault=%s@%d%s closers=%d%s bound=%d nseg=%d policy=%d", s.Stream, s.Fault, s.At, s.Res, s.Closers, cb, s.Bound, s.NSeg, s.Policy)
 }
@@ -71,6 +76,8 @@ type c12State struct {
 	ontracksErr     error
 	faultDone       bool
 	faultHit        bool
+	inCallback      int  // user callbacks that have been entered and have not returned
+	runningAtEnd    bool // a user callback was still running when Wait() yielded
 }
 
 var errC12OnTracks = errors.New("on-tracks refused")
@@ -240,6 +247,13 @@ func c12Harness(sc c12Scen) vsched.Harness {
 					if st.ontracksErr != nil {
 						return st.ontracksErr
 					}
+					if sc.SlowTracks {
+						st.inCallback++
+						for k := 0; k < 3; k++ {
+							vsched.Yield("user code inside OnTracks")
+						}
+						st.inCallback--
+					}
 					for _, tr := range tracks {
 						switch tr.Codec.(type) {
 						case *codecs.H264, *codecs.H265:
@@ -261,6 +275,7 @@ func c12Harness(sc c12Scen) vsched.Harness {
 				err := <-c.Wait()
 				vsched.Post(t, "user waits")
 				st.waitErr, st.waitGot = err, true
+				st.runningAtEnd = st.inCallback > 0
 			})
 			for i := 0; i < sc.Closers; i++ {
 				vsched.GoNamed(fmt.Sprintf("closer%d", i), func() {
@@ -396,6 +411,9 @@ func c12Harness(sc c12Scen) vsched.Harness {
 					}
 					add("wrong-error/"+sc.Fault, fmt.Sprintf("Wait() yielded %q (%v); with fault %s at request %d (hit=%v), Close before the end=%v, the acceptable outcomes are %v", got, st.waitErr, sc.Fault, sc.At, faultHit, st.closedBeforeEnd, w))
 				}
+				if st.runningAtEnd {
+					add("callback-running-at-end", "Wait() yielded while the user's OnTracks callback, entered on a goroutine of the client, had not returned yet")
+				}
 				if st.afterEnd > 0 {
 					add("callback-after-end", fmt.Sprintf("%d user callback(s) were invoked after Wait() had yielded", st.afterEnd))
 				}
@@ -468,6 +486,15 @@ func c12Scens(tier string) []c12Scen {
 						out = append(out, c12Scen{Stream: stream, Fault: fault, At: at, Closers: 2, Bound: b2, NSeg: nseg, Policy: policy})
 					}
 				}
+			}
+		}
+	}
+	// a user OnTracks callback that takes its time, Close arriving at every point of it
+	for _, policy := range []int{0, 1, 2} {
+		for _, stream := range []string{"fmp4-va", "fmp4-v+a", "ts-va", "ll"} {
+			out = append(out, c12Scen{Stream: stream, Fault: "none", Closers: 1, SlowTracks: true, Bound: bound, NSeg: 2, Policy: policy})
+			if policy == 0 {
+				out = append(out, c12Scen{Stream: stream, Fault: "none", Closers: 2, SlowTracks: true, Bound: bound, NSeg: 2, Policy: policy})
 			}
 		}
 	}
